@@ -149,19 +149,25 @@ class State:
         return (self.trace, _freeze(self.env), self.flags)
 
 
-def _freeze(v, _depth=0):
+def _freeze(v, _depth=0, _seen=None):
+    if _seen is None:
+        _seen = set()
+    if isinstance(v, (dict, list, Obj)):
+        if id(v) in _seen:
+            return ('ref', getattr(v, 'label', type(v).__name__))       # shared / cyclic structure: once is enough
+        _seen.add(id(v))
     if isinstance(v, dict):
-        return tuple(sorted(((str(k), _freeze(x, _depth)) for k, x in v.items())))
+        return tuple(sorted(((str(k), _freeze(x, _depth, _seen)) for k, x in v.items()), key=repr))
     if isinstance(v, (list, tuple)):
-        return (type(v).__name__,) + tuple(_freeze(x, _depth) for x in v)
+        return (type(v).__name__,) + tuple(_freeze(x, _depth, _seen) for x in v)
     if isinstance(v, (set, frozenset)):
         return ('set',) + tuple(sorted(map(repr, v)))
     if isinstance(v, Iter):
-        return ('iter', v.pos, _freeze(v.items))
+        return ('iter', v.pos, _freeze(v.items, _depth, _seen))
     if isinstance(v, Obj):
-        if _depth > 3:
+        if _depth > 6:
             return ('obj', v.label)
-        return ('obj', v.label, tuple(sorted((str(k), _freeze(x, _depth + 1)) for k, x in v.attrs.items())))
+        return ('obj', v.label, tuple(sorted(((str(k), _freeze(x, _depth + 1, _seen)) for k, x in v.attrs.items()), key=repr)))
     try:
         hash(v)
         return v if not isinstance(v, float) else repr(v)
@@ -834,10 +840,16 @@ class Interp:
             return None
         if isinstance(f, ast.Attribute) and isinstance(f.value, ast.Name) and f.value.id in ('self', 'cls') and self.model is not None:
             cls = getattr(self.h, 'cls', None) or getattr(fn, 'cls', None)
+            me = s.env.get(f.value.id)
+            if isinstance(me, Obj) and isinstance(me.cls, M.ClassInfo):
+                cls = me.cls                    # the object the method runs on (a receiver of an inlined call)
+                if f.attr in me.attrs:
+                    return None
             if cls is None or _text(f) in s.env:
                 return None
             m = self.model.find_method(cls, f.attr)
-            if m is None or (m.cls is not None and f.attr in m.cls.properties and m.cls.properties[f.attr].get('get') is m):
+            if m is None or (m.cls is not None and f.attr in m.cls.properties and m.cls.properties[f.attr].get('get') is m
+                             and not getattr(self, '_property_ok', False)):
                 return None
             if any(d in ('staticmethod',) for d in m.decorators):
                 return m.node, False, m
@@ -849,7 +861,8 @@ class Interp:
                 recv = b
             if isinstance(recv, Obj) and isinstance(recv.cls, M.ClassInfo) and f.attr not in recv.attrs:
                 m = self.model.find_method(recv.cls, f.attr)
-                if m is not None and not any(d in ('staticmethod', 'property') for d in m.decorators) and m.node.args.args:
+                if m is not None and not any(d == 'staticmethod' or (d == 'property' and not getattr(self, '_property_ok', False))
+                                             for d in m.decorators) and m.node.args.args:
                     self._receiver = recv          # (a classmethod gets the object that stands for the class)
                     return m.node, True, m
         return None
@@ -1171,11 +1184,41 @@ class Interp:
             return v
         if isinstance(n.value, ast.Name) and n.value.id in ('self', 'cls') and self.model is not None:
             cls = getattr(self.h, 'cls', None) or getattr(self.scope, 'cls', None)
+            me = s.env.get(n.value.id)
+            if isinstance(me, Obj) and isinstance(me.cls, M.ClassInfo):
+                cls = me.cls
             if isinstance(cls, M.ClassInfo):
                 mth = self.model.find_method(cls, n.attr)
                 if mth is not None and not (mth.cls is not None and n.attr in mth.cls.properties):
                     return Sym('method:%s' % n.attr, truthy=True)
         base = self.ev(n.value, s)
+        if self.heap and isinstance(base, Obj) and isinstance(base.cls, M.ClassInfo) and n.attr not in base.attrs \
+           and self.model is not None and self.inline_depth > 0 and len(self._inline_stack) < self.inline_depth:
+            getter = None
+            for k in self.model.mro(base.cls):
+                if isinstance(k, M.ClassInfo) and n.attr in k.properties and 'get' in k.properties[n.attr]:
+                    getter = k.properties[n.attr]['get']
+                    break
+                if isinstance(k, M.ClassInfo) and (n.attr in k.methods or n.attr in k.assigns):
+                    break
+            if getter is not None:
+                # a property of a heap object: interpret its getter on that object (single outcome only)
+                call = ast.Call(func=ast.Attribute(value=n.value, attr=n.attr, ctx=ast.Load()), args=[], keywords=[])
+                ast.copy_location(call, n)
+                ast.copy_location(call.func, n)
+                f2 = s.fork()
+                self._property_ok = True
+                try:
+                    res = self.inline(call, f2)
+                except AnalysisError:
+                    res = None
+                finally:
+                    self._property_ok = False
+                if res is not None and len(res) == 1:
+                    st, v = res[0]
+                    s.env, s.trace, s.assumed, s.flags = st.env, st.trace, st.assumed, st.flags
+                    return v
+                return TOP
         return self.getattr(base, n.attr, n, s)
 
     def getattr(self, base, attr, n, s):
@@ -1206,11 +1249,13 @@ class Interp:
                     return v
             r = m.getattr_static(base, attr)
             return self._from_model(r)
+        if isinstance(base, M.External) and base.name in ('re', 'operator') and not attr.startswith('_'):
+            return M.External('%s.%s' % (base.name, attr))
         if isinstance(base, M.External) and base.name == 'string' and attr in ('digits', 'ascii_letters', 'ascii_lowercase', 'ascii_uppercase',
                                                                               'hexdigits', 'octdigits', 'punctuation', 'whitespace'):
             import string as _string
             return getattr(_string, attr)
-        if isinstance(base, str) and attr in ('upper', 'lower', 'strip', 'startswith', 'endswith', 'join', 'split', 'replace', 'format', 'isdigit'):
+        if isinstance(base, str) and not attr.startswith('_') and callable(getattr(str, attr, None)):
             return ('boundmethod', base, attr)
         if isinstance(base, (list, dict)) and attr in ('append', 'extend', 'insert', 'pop', 'copy', 'keys', 'values', 'items', 'get', 'update', 'clear', 'index', 'remove', 'reverse', 'setdefault'):
             return ('boundmethod', base, attr)
@@ -1234,6 +1279,9 @@ class Interp:
             items = base.attrs['__items']
             try:
                 if idx in items:
+                    return items[idx]
+                if base.attrs.get('__auto'):
+                    items[idx] = Obj('%s[%r]' % (base.label, idx))      # an object per key, created on first use
                     return items[idx]
             except TypeError:
                 pass
@@ -1595,6 +1643,13 @@ class Interp:
             if isinstance(rr, tuple) and rr[0] == 'assign' and isinstance(rr[2][-1], ast.Call) \
                and _text(rr[2][-1].func).endswith('NewType'):
                 return args[0]
+        if isinstance(fval, M.External) and fval.name == 're.sub' and len(args) in (3, 4) and all(isinstance(a, (str, int)) for a in args) \
+           and all(isinstance(v, int) for v in kwargs.values()):
+            import re as _re
+            try:
+                return _re.sub(*args, **kwargs)
+            except Exception:
+                return TOP
         if isinstance(fval, M.External) and fval.name.startswith('operator.') and all(is_concrete(a) for a in args) and not kwargs:
             import operator as _operator
             f = getattr(_operator, fval.name.split('.', 1)[1], None)
@@ -1687,7 +1742,9 @@ _NOTHROW_CALLS = {'isinstance', 'issubclass', 'type', 'id', 'len', 'repr', 'str'
 _PURE = {'len': len, 'int': int, 'str': str, 'bool': bool, 'ord': ord, 'chr': chr,
          'abs': abs, 'min': min, 'max': max, 'list': list, 'tuple': tuple,
          'float': float, 'range': range, 'sorted': sorted, 'reversed': lambda x: list(reversed(x)),
-         'sum': sum, 'set': set, 'dict': dict, 'enumerate': lambda x: list(enumerate(x))}
+         'sum': sum, 'set': set, 'dict': dict, 'enumerate': lambda x: list(enumerate(x)),
+         'divmod': divmod, 'round': round, 'pow': pow, 'hex': hex, 'oct': oct, 'bin': bin, 'any': any, 'all': all,
+         'zip': lambda *a: list(zip(*a)), 'repr': repr}
 
 
 def _known(a):
